@@ -230,6 +230,17 @@ class Sched:
             raise Abort()
         me.where = where
         self._switch(kind)
+        self._deliver(me)
+
+    def interrupt(self, t, exc):
+        """make managed thread t raise exc at its next scheduling point (models an asynchronous KeyboardInterrupt)"""
+        t.pending_exc = exc
+
+    def _deliver(self, me):
+        e = getattr(me, "pending_exc", None)
+        if e is not None:
+            me.pending_exc = None
+            raise e
 
     def block(self, pred, timeout=None, where=""):
         """block the calling managed thread until pred() or (virtual) timeout; returns pred()"""
@@ -239,16 +250,18 @@ class Sched:
             return pred()
         if self.aborting:
             raise Abort()
+        self._deliver(me)
         if pred():
             return True
         if timeout is not None and timeout <= 0:
             return False
         me.state = "blocked"
-        me.pred = pred
+        me.pred = lambda: pred() or getattr(me, "pending_exc", None) is not None
         me.deadline = None if timeout is None else self.clock + timeout
         me.timed_out = False
         me.where = where
         self._switch("block")
+        self._deliver(me)
         return pred()
 
     def run(self, timeout=60.0):
